@@ -738,3 +738,7 @@ func TestC07(t *testing.T) {
 	vh.Drive(t, vh.Spec[MeshCase]{Name: "mesh-roundtrip", Quick: 500000, Thorough: 15000000, Gen: genMesh, Run: runMesh})
 	vh.Drive(t, vh.Spec[BytesCase]{Name: "bytes-roundtrip", Quick: 700000, Thorough: 21000000, Gen: genBytes, Run: runBytes})
 }
+
+func FuzzC07Bytes(f *testing.F) {
+	vh.Fuzz(f, vh.Spec[BytesCase]{Name: "bytes-roundtrip", Gen: genBytes, Run: runBytes})
+}
